@@ -56,20 +56,20 @@ def enc_pt(rng, s, force=None):
                 w.b(f)
                 if f:
                     w.u(2, force.get('ct', rng.randrange(4))).b(rng.random() < 0.5).u(5, force.get('cnt', rng.choice([0, 1, 6, 7, 31, rng.randrange(32)])))
-                    full = rng.random() < 0.4
+                    full = force.get('full', rng.random() < 0.4)
                     w.b(full).b(rng.random() < 0.5).b(rng.random() < 0.5).u(8, rng.randrange(256))
                     if full:
                         w.u(6, rng.randrange(64)).u(6, rng.randrange(64)).u(5, rng.randrange(32))
                     else:
-                        sf = rng.random() < 0.7
+                        sf = force.get('all_flags', False) or rng.random() < 0.7
                         w.b(sf)
                         if sf:
                             w.u(6, rng.randrange(64))
-                            mf = rng.random() < 0.7
+                            mf = force.get('all_flags', False) or rng.random() < 0.7
                             w.b(mf)
                             if mf:
                                 w.u(6, rng.randrange(64))
-                                hf = rng.random() < 0.6
+                                hf = force.get('all_flags', False) or rng.random() < 0.6
                                 w.b(hf)
                                 if hf:
                                     w.u(5, rng.randrange(32))
@@ -113,6 +113,49 @@ def gen(tier, rng):
             cases.append("pt %s %d %s" % (ctx, s["id"], hx(enc_pt(rng, s, {"ps": ps, "flag": True}))))
         for cnt in range(32):
             cases.append("pt %s %d %s" % (ctx, s["id"], hx(enc_pt(rng, s, {"ps": rng.choice([0, 3, 5]), "flag": True, "cnt": cnt, "ct": cnt % 4}))))
+    # the longest payloads the syntax allows: delay widths 32/32 (and every other width pair at the top), three clock
+    # timestamps each with all optional parts - through full_timestamp_flag and through the three separate flags - and
+    # time_offset_length 24..31; also the shortest ones
+    for tol in (0, 1, 24, 29, 30, 31):
+        for a, b in ((31, 31), (31, 23), (23, 31), (0, 0), (15, 31)):
+            s = g.gen_sps(rng, sps_id=2, small=True, vui_shape={"nal": True, "vcl": rng.random() < 0.5, "cnt": 0, "cnt2": 0, "ps": True})
+            for k in ("nal_hrd", "vcl_hrd"):
+                if s["vui"][k] is not None:
+                    s["vui"][k]["crdl"], s["vui"][k]["dodl"], s["vui"][k]["tol"] = a, b, tol
+            ctx = "S" + hx(g.sps_nal(s, rng))
+            for ps in (5, 6, 8, 3, 0):
+                for full in (True, False):
+                    cases.append("pt %s %d %s" % (ctx, s["id"], hx(enc_pt(rng, s, {"ps": ps, "flag": True, "full": full, "all_flags": True}))))
+    # small / round values in wide fields (byte patterns 00 00 0x inside the payload)
+    for _ in range(200 if tier == "quick" else 4000):
+        s = g.gen_sps(rng, sps_id=1, small=True, vui_shape={"nal": True, "vcl": rng.random() < 0.3, "cnt": rng.choice([0, 1, 3]), "cnt2": 0, "ps": rng.random() < 0.7})
+        for k in ("nal_hrd", "vcl_hrd"):
+            if s["vui"][k] is not None:
+                for f in ("icrdl", "crdl", "dodl"):
+                    s["vui"][k][f] = rng.choice([23, 31, 31, 15])
+        ctx = "S" + hx(g.sps_nal(s, rng))
+        small = lambda ln: rng.choice([0, 1, 2, 3, 6, 1 << rng.randrange(ln), 3 << rng.randrange(max(1, ln - 1)), 0x030000 & ((1 << ln) - 1)])
+        w = BitWriter()
+        w.ue(s["id"])
+        for k in ("nal_hrd", "vcl_hrd"):
+            h = s["vui"][k]
+            if h is not None:
+                ln = h["icrdl"] + 1
+                for _ in range(h["cpb_cnt_minus1"] + 1):
+                    w.u(ln, small(ln) & ((1 << ln) - 1))
+                    w.u(ln, small(ln) & ((1 << ln) - 1))
+        if len(w.bits) % 8:
+            w.trailing()
+        cases.append("bp %s %s" % (ctx, hx(w.bytes())))
+        h = s["vui"]["nal_hrd"]
+        w = BitWriter()
+        a, b = h["crdl"] + 1, h["dodl"] + 1
+        w.u(a, small(a) & ((1 << a) - 1)).u(b, small(b) & ((1 << b) - 1))
+        if s["vui"]["pic_struct_present"]:
+            w.u(4, rng.choice([0, 1, 2])).b(0)
+        if len(w.bits) % 8:
+            w.trailing()
+        cases.append("pt %s %d %s" % (ctx, s["id"], hx(w.bytes())))
     cases.append("bp - 40")
     cases.append("bp - 0000000000")
     for b in range(256):
